@@ -11,7 +11,8 @@ RULE = (
     "opt-gen. X = each of the 10 ASCII_* rules, NEWLINE, ANY: ALL 1,114,112 code points (exhaustive, both "
     "tiers) against explicit sets. X = Hypothesis-generated ranges, one-character literals, ASCII "
     "case-insensitive one-character literals and mixed choices of them (what squash_choice merges; "
-    "boundaries at case edges, adjacent / overlapping / single-point / astral ranges, members ] - ^ \\ [): "
+    "boundaries at case edges, adjacent / overlapping / nested / single-point / astral ranges, members ] - ^ \\ [; "
+    "plus a deterministic matrix of 19 regex-special characters x 9 roles inside a merged class): "
     "boundary-focused sweeps (U+0000-U+02FF, +-2 around every boundary, case images, specials, stride) in "
     "quick, full sweeps in thorough, against the union of the explicit sets. Unicode property built-ins "
     "(alone and mixed into choices): cross-mode equality with the unoptimized interpreter. Case-insensitive "
@@ -426,6 +427,28 @@ def run_shard(ctx: Ctx, spec):
                 ctx.sample({"X": gprint.pr(x), "code_points_swept": sum(b - a for a, b in ivs)})
 
         fam()
+
+        # B2. regex-special characters in every role inside a merged class (deterministic matrix)
+        matrix = []
+        for c in "]-^\\[&|~.$*+?(){}":
+            o = ord(c)
+            lo2, hi2 = chr(max(o - 3, 0x21)), chr(min(o + 3, 0x7E))
+            matrix += [
+                ("alt", (("str", c), ("str", "a"))),
+                ("alt", (("str", "a"), ("str", c))),
+                ("alt", (("str", c), ("range", "a", "z"))),
+                ("alt", (("range", c, "z"), ("range", "x", "z"), ("str", "!"))) if c < "z" else ("alt", (("str", c), ("str", "!"))),
+                ("alt", (("range", c, hi2), ("str", "é"))),
+                ("alt", (("range", lo2, c), ("range", "0", "9"))),
+                ("alt", (("str", c), ("str", "!"), ("range", "0", "9"))),
+                ("alt", (("ci", "k"), ("str", c))),
+                ("alt", (("str", c), ("str", c), ("str", "z"))),
+            ]
+        for j, x in enumerate(matrix):
+            if j % 16 != idx:
+                continue
+            ctx.count("special_character_matrix")
+            check_sweep(ctx, modes, x, intervals_of(boundary_cps(x)), "specials")
 
         # C. unicode property built-ins: cross-mode equality
         names = unicode_rule_names()
